@@ -742,7 +742,11 @@ func solveAll(obls []*Obligation, workdir string, quickSec, slowSec int, thoroug
 				defer wg.Done()
 				defer func() { <-sem }()
 				t1 := time.Now()
-				res[i] = solveScript(obls[i], scripts[i], pure[i], workdir, i, qs, ss, thorough, diversify)
+				q1, s1 := qs, ss
+				if noRetry[obls[i].Name] && q1 > 5 {
+					q1, s1 = 5, 5 // recorded known finding: expected to fail
+				}
+				res[i] = solveScript(obls[i], scripts[i], pure[i], workdir, i, q1, s1, thorough, diversify)
 				if w := time.Since(t1).Seconds(); w > 2 && os.Getenv("GOWP_TIMING") != "" {
 					fmt.Fprintf(os.Stderr, "gowp: slow %s wall %.1fs status %s tried %v\n", obls[i].Name, w, res[i].Status, res[i].Tried)
 				}
@@ -759,14 +763,16 @@ func solveAll(obls []*Obligation, workdir string, quickSec, slowSec int, thoroug
 	for i := range obls {
 		all[i] = i
 	}
-	short := 3
-	if quickSec < short {
-		short = quickSec
-	}
 	if thorough {
 		run(all, jobs, quickSec, slowSec, false)
 	} else {
-		run(all, jobs, short, short, false)
+		// Pass 1: everything, with a limit that leaves room for the load
+		// the pass itself creates (each obligation races up to five solver
+		// processes). Pass 2: what is still undecided, few at a time, with
+		// more time and a diversified portfolio - a timeout on an unchanged
+		// tree would be a false alarm, so it must reflect the obligation and
+		// not the load.
+		run(all, jobs, 3*quickSec, 3*slowSec, false)
 		var again []int
 		for i, r := range res {
 			if !obls[i].ExpectSat && !noRetry[obls[i].Name] && (r.Status == "timeout" || r.Status == "unknown" || r.Status == "error") {
@@ -774,8 +780,6 @@ func solveAll(obls []*Obligation, workdir string, quickSec, slowSec int, thoroug
 			}
 		}
 		if len(again) > 0 {
-			// generous limit: only the few hard obligations get here, and
-			// a timeout on an unchanged tree would be a false alarm
 			run(again, 3, 6*quickSec, 6*slowSec, true)
 		}
 	}
